@@ -90,6 +90,21 @@ theorem full_and_interface_shape :
     between (set "Truncated") (iff "maxErrors,len,Fields,maxErrors") (call "Sort") coerceToValidationErrors_events = true ∧
     ValidatePartial_events = [call "append", call "WithPresence", call "WithPartial", call "Validate", kw "return"] := by decide
 
+/-- the redaction walk `coversValue` (model `coversValue`): the redactor is asked about the path first, then the
+    depth guard, then pointers and interfaces are looked through (a nil one reveals nothing); a struct is walked
+    through the cached field map with the promoted-struct test, a slice or array by index (`Itoa`), a map by key
+    (`Sprint`); every branch recurses into `coversValue` -/
+theorem coversValue_chain :
+    coversValue_events.take 5 = [iff "redactor", call "redactor", kw "then", kw "return", kw "endif"] ∧
+    firstBefore (iff "redactor") (iff "IsNil") coversValue_events = true ∧
+    firstBefore (iff "IsNil") (kw "switch") coversValue_events = true ∧
+    (coversValue_events.filter (·.1 == "case")).map (·.2) = ["Struct", "Slice,Array", "Map", ""] ∧
+    between (call "getFieldMap") (("case", "Struct")) (("case", "Slice,Array")) coversValue_events = true ∧
+    between (iff "isPromotedStruct,Type,Field") (("case", "Struct")) (("case", "Slice,Array")) coversValue_events = true ∧
+    between (iff "coversValue,Itoa,Index") (("case", "Slice,Array")) (("case", "Map")) coversValue_events = true ∧
+    between (iff "coversValue,Sprint,Key,Value") (("case", "Map")) (kw "endswitch") coversValue_events = true ∧
+    count (call "coversValue") coversValue_events = 3 := by decide
+
 /-- `Error.Sort` compares paths first (model `errLe`); `LeafPaths` ends by sorting (model `leafPaths`) -/
 theorem sort_shape :
     only "if" Error_Sort_events = ["Fields,Path,Fields,Path"] ∧
